@@ -13,7 +13,7 @@ hash parameters of the model instantiated by the executable specs in Qx.Crypto.
   dparse <bytes>         -> <map>                             (QXmppSaslDigestMd5::parseMessage)
   dser <map>             -> <bytes>                           (QXmppSaslDigestMd5::serializeMessage)
 All byte strings are hex, the empty one is `-`.  <map> = `{}` or `k:v;k:v…`.  <outs> = `-` or `auth:<hex>` /
-`resp:<hex>` / `abort` joined by `,`.  <result> = `-` | success | cannot-respond | auth-failed | required-tasks.
+`resp:<hex>` / `abort` joined by `,`.  <result> = `-` | success | cannot-respond | auth-failed | required-tasks | not-proved.
 -/
 import Qx.Driver.Proto
 import Qx.Model.C06Sasl
@@ -77,6 +77,7 @@ def showRes : Option Res → String
   | some .cannotRespond => "cannot-respond"
   | some .authFailed => "auth-failed"
   | some .requiredTasks => "required-tasks"
+  | some .notProved => "not-proved"
 
 def showHandled : Handled → String
   | .accepted => "A" | .rejected => "R" | .finished => "F"
